@@ -39,6 +39,7 @@ func checkC11(p *Prog, r *Report) {
 	r.Rule("O2", "no alias out: the stored pointer is never returned, stored elsewhere or passed outside; DataCopy returns a copy taken while the store lock is held")
 	r.Rule("O2s", "the list handed back by an update is not the list that was just persisted")
 	r.Rule("O3", "copy-on-write below the first level: no function writes elements of a slice that is reachable from the store or from a snapshot handed out (computed write-through summaries, propagated from the stored object and from DataCopy results)")
+	r.Rule("O6", "failure is never lost in the generic engine (C04-R9): a stage failure on the path makes the engine return false, so the persist guard (O4) sees it")
 	r.Rule("O4", "the per-type update assigns the merged list only under success && persist (C02-R1/S4)")
 	r.Rule("O5", "every store to the function-data field happens only when persisting")
 
@@ -217,6 +218,7 @@ func checkC11(p *Prog, r *Report) {
 		}
 	}
 	r.Floor("O4", "Updater implementations", n4, 87)
+	engineFailureRule(p, r, "O6")
 	r.Assumes("DataCopy is a shallow copy by design: lists below the first level share their backing arrays with the store, which is safe only because nothing writes them in place (O3)",
 		"reflection is summarised by the pattern ValueOf(param).Elem()…Set*")
 }
